@@ -297,6 +297,9 @@ func (env *Env) ident(name string) Val {
 					}
 				}
 			}
+			if i := e.entryParam(fr.fn, name); i >= 0 && i < len(fr.params) {
+				return fr.params[i]
+			}
 			if c, ok := fr.names[name]; ok {
 				if _, live := st.cells[c]; !live && !c.arr {
 					efail("variable %q is not declared on this path", name)
@@ -663,6 +666,17 @@ func (env *Env) call(x *Expr) Val {
 		}
 		if st.holdsClass(x.Args[0].Name) {
 			return boolVal("true")
+		}
+		return boolVal("false")
+	case "infunc":
+		// infunc("f|g"): the site lies in f or g (or in code inlined into them)
+		if len(x.Args) != 1 || x.Args[0].Op != "str" {
+			efail("infunc needs a string literal")
+		}
+		for f := env.fr; f != nil; f = f.parent {
+			if matchName(shortName(f.fn.String()), x.Args[0].Name) {
+				return boolVal("true")
+			}
 		}
 		return boolVal("false")
 	case "nolocks":
